@@ -82,3 +82,1542 @@ class value_lookup_table:
             shapes={"lookup_table": ListOf(Int)},
         )
     }
+
+
+# =============================================================================================================
+# String model for the colour descriptions (used by the contracts below).
+#
+# A str is modelled as CStr(n, at): its length n (int or symbolic Int) and the code point at(j) of character j.
+# The model is a ModelObj, so every operation the real code performs on it is dispatched here and either has a
+# definite meaning below or is Unsupported (an honest failure).  Modelled operations and the CPython facts they
+# encode (each cross-checked against CPython by the static check `cstr-models-agree-with-cpython`):
+#   len(s), s[i] (IndexError outside -n..n-1), s[a:b:k] for constant k >= 1 (slice.indices clamping), s == t,
+#   s in <container of constants>, s.startswith(<constant>), c in "<constant>" for a one-character c, s + t,
+#   iteration (one-character strs in order),
+#   f"{v:d}" / f"{v:x}" / f"{v:0Wx}" for an int v >= 0 (positional digits, most significant first, lower case,
+#     zero-padded to W), f"{s}" for a str,
+#   int(s, 10) / int(s, 16): for a non-empty s of ASCII digits of the base — the positional value; for base 16
+#     also "0x"/"0X" followed by >= 1 hex digits — the value of those digits; for EVERY other s: either ValueError
+#     or some unspecified int (CPython also accepts signs, blanks, underscores and non-ASCII digits; the model
+#     does not say which strings those are, so nothing can be proved from them — a sound over-approximation).
+# What is trusted: exactly these statements about CPython's str/int/format.
+# =============================================================================================================
+import z3  # noqa: E402
+
+from pyvc import source as SRC  # noqa: E402
+from pyvc.builtins_model import norm_index  # noqa: E402
+from pyvc.engine import PyRaise, SExc  # noqa: E402
+from pyvc.seqs import ModelObj  # noqa: E402
+from pyvc.shapes import Shape  # noqa: E402
+from pyvc.values import SInt, mk_int  # noqa: E402
+
+MAX_CODE = 0x110000
+
+
+def _isint(x):
+    return isinstance(x, int) and not isinstance(x, bool)
+
+
+def _simp(x):
+    """Simplify a symbolic int to a plain int where z3 can (lengths of slices of strings of known length)."""
+    if isinstance(x, SInt):
+        e = z3.simplify(x.e)
+        if z3.is_int_value(e):
+            return e.as_long()
+        return mk_int(e)
+    return x
+
+
+def _pick(items, j):
+    """items[j] for a concrete list and an int or symbolic j (an ite chain; no fork)."""
+    if _isint(j):
+        return items[j] if 0 <= j < len(items) else 0  # outside the str: an unused placeholder
+    r = items[-1]
+    for k in range(len(items) - 2, -1, -1):
+        r = ite(j == k, items[k], r)
+    return r
+
+
+class CStr(ModelObj):
+    def __init__(self, n, at):
+        self.n = _simp(n)
+        self.at = at
+
+    @staticmethod
+    def of(s):
+        if isinstance(s, CStr):
+            return s
+        if isinstance(s, str):
+            codes = [ord(ch) for ch in s]
+            return CStr.codes(codes)
+        raise Unsupported(f"not a str: {s!r}")
+
+    @staticmethod
+    def codes(codes):
+        codes = list(codes)
+        return CStr(len(codes), (lambda j: _pick(codes, j)) if codes else (lambda j: 0))
+
+    # ---- dispatch from the interpreter
+    def py_len(self, st):
+        return self.n
+
+    def py_truth(self, st):
+        return self.n > 0
+
+    def py_getitem(self, ip, st, idx):
+        n = self.n
+        if isinstance(idx, Q.SSlice):
+            start, stop, step = Q.slice_indices(idx, n)
+            if not (_isint(step) and step >= 1):
+                raise Unsupported("slice of a modelled str with a non-constant or negative step")
+            start, stop = _simp(start), _simp(stop)
+            if step == 1:
+                return CStr(imax(stop - start, 0), lambda j: self.at(start + j))
+            return CStr(imax((stop - start + step - 1) // step, 0), lambda j: self.at(start + j * step))
+        if _isint(idx) and _isint(n) and -n <= idx < n:
+            k = idx % n
+        else:
+            k = _simp(norm_index(st, idx, n, "string index out of range"))
+        return CStr(1, lambda j: self.at(k))
+
+    def py_iter(self, ip, st):
+        if _isint(self.n):
+            return tuple(CStr(1, (lambda j, i=i: self.at(i))) for i in range(self.n))
+        return Q.SSeq(self.n, lambda i: CStr(1, lambda j: self.at(i)), None, None, "chars")
+
+    def py_in_str(self, ip, st, container):
+        """`c in "constant"` for a one-character c: c is one of the constant's characters."""
+        if self.n != 1 if _isint(self.n) else True:
+            raise Unsupported("substring test of a modelled str that is not a single character")
+        c = self.at(0)
+        return either(*[c == k for k in sorted({ord(ch) for ch in container})])
+
+    def py_call(self, ip, st, name, args, kwargs):
+        if name == "startswith" and len(args) == 1 and isinstance(args[0], str) and not kwargs:
+            return cs_startswith(self, args[0])
+        h = getattr(ip.task.c, "str_method", None)
+        if h is not None:
+            r = h(ip, st, self, name, args, kwargs)
+            if r is not NotImplemented:
+                return r
+        raise Unsupported(f"str.{name} on a modelled str")
+
+    def py_binop(self, ip, st, op, other, reflected):
+        import ast as _ast
+
+        if isinstance(op, _ast.Add) and isinstance(other, (str, CStr)):
+            a, b = (other, self) if reflected else (self, other)
+            return cs_concat(CStr.of(a), CStr.of(b))
+        return NotImplemented
+
+    def py_int_base(self, ip, st, base):
+        return cs_int(st, self, base)
+
+    def __eq__(self, o):
+        if isinstance(o, (str, CStr)):
+            return cs_eq(self, o)
+        return False
+
+    def __ne__(self, o):
+        return neg(self.__eq__(o))
+
+    __hash__ = object.__hash__
+
+    def py_concretize(self, model):
+        def ev(x):
+            return x if _isint(x) else model.eval(V._z(x), model_completion=True).as_long()
+
+        n = ev(self.n)
+        saved, st = None, cur() if V._current else None
+        if st is not None:
+            saved, st.capture = st.capture, []  # evaluating at(j) may want to assume range facts: discard them here
+        try:
+            return "".join(chr(ev(self.at(j)) % MAX_CODE) for j in range(min(n, 12))) + ("..." if n > 12 else "")
+        finally:
+            if st is not None:
+                st.capture = saved
+
+    def __repr__(self):
+        return f"CStr(len={self.n!r})"
+
+
+def cs_len(s):
+    return len(s) if isinstance(s, str) else s.n
+
+
+def cs_at(s, j):
+    return ord(s[j]) if isinstance(s, str) else s.at(j)
+
+
+def cs_startswith(s, prefix):
+    return both(cs_len(s) >= len(prefix), *[cs_at(s, i) == ord(ch) for i, ch in enumerate(prefix)])
+
+
+def cs_eq(a, b, bound=None):
+    """a == b for strs of which at least one has a known length (or both at most `bound` long)."""
+    if isinstance(a, str) and isinstance(b, str):
+        return a == b
+    na, nb = cs_len(a), cs_len(b)
+    if _isint(na) and _isint(nb) and na != nb:
+        return False
+    if _isint(na) or _isint(nb):
+        k = na if _isint(na) else nb
+        return both(na == nb, *[cs_at(a, i) == cs_at(b, i) for i in range(k)])
+    if bound is None:
+        raise Unsupported("equality of two modelled strs of unknown length")
+    return both(na == nb, na <= bound, *[implies(i < na, cs_at(a, i) == cs_at(b, i)) for i in range(bound)])
+
+
+def cs_concat(a, b):
+    na, nb = a.n, b.n
+    if _isint(na) and _isint(nb):
+        return CStr.codes([a.at(i) for i in range(na)] + [b.at(i) for i in range(nb)])
+    return CStr(na + nb, lambda j: ite(j < na, a.at(j), b.at(j - na)))
+
+
+def cs_concrete_len(st, s, maxn=8):
+    """The length of s as a plain int, by a case split over 0..maxn (None when it may be longer)."""
+    if _isint(s.n):
+        return s.n
+    k = st.choose([s.n == j for j in range(maxn + 1)] + [s.n > maxn])
+    return k if k <= maxn else None
+
+
+def is_dec(c):
+    return both(48 <= c, c <= 57)
+
+
+def is_hex(c):
+    return either(both(48 <= c, c <= 57), both(97 <= c, c <= 102), both(65 <= c, c <= 70))
+
+
+def digit_val(c, base):
+    """Value of an ASCII digit character of the base (meaningful only where is_dec / is_hex holds)."""
+    if base == 10:
+        return c - 48
+    return ite(c <= 57, c - 48, ite(c >= 97, c - 87, c - 55))
+
+
+def is_digit(c, base):
+    return is_dec(c) if base == 10 else is_hex(c)
+
+
+def digits_value(codes, base):
+    v = 0
+    for c in codes:
+        v = v * base + digit_val(c, base)
+    return v
+
+
+def int_literal_class(codes, base):
+    """(canonical, prefixed) for the characters of a str: all ASCII digits of the base (at least one) / base 16 and
+    "0x" or "0X" followed by at least one hex digit.  Dual use (symbolic codes or plain ints)."""
+    n = len(codes)
+    canonical = both(n >= 1, *[is_digit(c, base) for c in codes])
+    prefixed = False
+    if base == 16 and n >= 3:
+        prefixed = both(codes[0] == 48, either(codes[1] == 120, codes[1] == 88), *[is_hex(c) for c in codes[2:]])
+    return canonical, prefixed
+
+
+def _xcheck_cstr():
+    """The str / int / format models on concrete strings against CPython."""
+    import random
+
+    rnd = random.Random(18)
+    alphabet = "0123456789abcdefABCDEFxXgh#+- _,\t\u0663\u00b2z"
+    bad = []
+    for t in range(6000):
+        sv = "".join(rnd.choice(alphabet) for _ in range(rnd.randrange(0, 9)))
+        codes = [ord(ch) for ch in sv]
+        for base in (10, 16):
+            canonical, prefixed = int_literal_class(codes, base)
+            try:
+                real = int(sv, base)
+            except ValueError:
+                real = None
+            if canonical and real != digits_value(codes, base):
+                bad.append(("int-canonical", sv, base))
+            elif not canonical and prefixed and real != digits_value(codes[2:], base):
+                bad.append(("int-prefixed", sv, base))
+            # every other string: the model allows ValueError or any int - CPython must do one of the two
+        m = CStr.of(sv)
+        i, j, k = rnd.randrange(-10, 10), rnd.randrange(-10, 10), rnd.randrange(1, 4)
+        got = m.py_getitem(None, None, Q.SSlice(i, j, k))
+        if "".join(chr(got.at(x)) for x in range(got.n)) != sv[i:j:k]:
+            bad.append(("slice", sv, i, j, k))
+        got = m.py_getitem(None, None, Q.SSlice(i, None, None))
+        if "".join(chr(got.at(x)) for x in range(got.n)) != sv[i:]:
+            bad.append(("slice-open", sv, i))
+        if -len(sv) <= i < len(sv) and chr(m.py_getitem(None, None, i).at(0)) != sv[i]:
+            bad.append(("index", sv, i))
+        for pre in ("h", "#", "g#", "g", ""):
+            if bool(cs_startswith(m, pre)) != sv.startswith(pre):
+                bad.append(("startswith", sv, pre))
+        other = "".join(rnd.choice(alphabet) for _ in range(rnd.randrange(0, 3)))
+        if bool(cs_eq(m, other)) != (sv == other) or not bool(cs_eq(m, sv)):
+            bad.append(("eq", sv, other))
+        cat = cs_concat(m, CStr.of(other))
+        if "".join(chr(cat.at(x)) for x in range(cat.n)) != sv + other:
+            bad.append(("concat", sv, other))
+        if bool(hex_all(sv)) != all(ch in "0123456789abcdefABCDEF" for ch in sv):
+            bad.append(("hex", sv))
+        v = rnd.choice([rnd.randrange(0, 300), rnd.randrange(0, 2**24)])
+        for spec, base, width in (("d", 10, 0), ("x", 16, 0), ("06x", 16, 6)):
+            nd = max(len(format(v, spec[-1])), width)
+            if "".join(chr(digit_char(d, base)) for d in digits_of(None, v, base, nd)) != format(v, spec):
+                bad.append(("format", v, spec))
+        if v < 1000:
+            ds = dec_str(v, 3)
+            if "".join(chr(ds.at(x)) for x in range(ds.n)) != str(v):
+                bad.append(("dec_str", v))
+    return "cstr-models-agree-with-cpython", not bad, f"6000 strings / numbers; mismatches: {bad[:3]}"
+
+
+def cs_int(st, s, base):
+    """Model of int(s, base), base 10 or 16 (see the header of this section)."""
+    if base not in (10, 16):
+        raise Unsupported(f"int(str, {base}) is not modelled")
+    n = cs_concrete_len(st, s)
+    if n is not None:
+        codes = [s.at(i) for i in range(n)]
+        canonical, prefixed = int_literal_class(codes, base)
+        w = st.choose([canonical, both(neg(canonical), prefixed), both(neg(canonical), neg(prefixed))])
+        if w == 0:
+            return digits_value(codes, base)
+        if w == 1:
+            return digits_value(codes[2:], base)
+    if st.fork(2) == 0:
+        raise PyRaise(SExc(ValueError, ("invalid literal for int()",), site="builtin"))
+    return st.fresh_int("lenient_int")
+
+
+def fmt_int(st, v, spec):
+    """Model of format(v, spec) for an int v >= 0 and spec 'd', 'x' or '0Wx' / '0Wd' (W a constant width)."""
+    kind = spec[-1:] if spec else "d"
+    if kind not in ("d", "x") or (spec[:-1] and not (spec[0] == "0" and spec[1:-1].isdigit())):
+        return NotImplemented
+    width = int(spec[1:-1]) if spec[:-1] else 0
+    base = 10 if kind == "d" else 16
+    if _isint(v):
+        return CStr.of(format(v, spec))
+    if not st.branch(v >= 0):
+        raise Unsupported("format of a possibly negative modelled int")
+    limits = [base**k for k in range(1, 9)]
+    k = st.choose([v < limits[0]] + [both(limits[i - 1] <= v, v < limits[i]) for i in range(1, 8)] + [v >= limits[7]])
+    if k == 8:
+        raise Unsupported("format of a modelled int with more than 8 digits")
+    nd = max(k + 1, width)
+    return CStr.codes([digit_char(d, base) for d in digits_of(st, v, base, nd)])
+
+
+def digits_of(st, v, base, nd):
+    """The nd base-`base` digits of v, most significant first, as fresh ints d_j DEFINED by
+    0 <= v < base**nd  ==>  0 <= d_j < base  and  sum d_j * base**(nd-1-j) == v
+    (positional notation: for v in that range such digits exist and are unique, d_j = (v // base**(nd-1-j)) % base;
+    the linear form is what the solver is good at).  One set of digit symbols per (v, base, nd) and path."""
+    if _isint(v):
+        return [(v // base ** (nd - 1 - j)) % base for j in range(nd)]
+    cache = st.ghost.setdefault("c18_digits", {})
+    key = (V._z(v).get_id(), base, nd)
+    if key not in cache:
+        ds = [st.fresh_int(f"digit{j}") for j in range(nd)]
+        total = 0
+        for d in ds:
+            total = total * base + d
+        fact = implies(both(v >= 0, v < base**nd), both(total == v, *[both(0 <= d, d < base) for d in ds]))
+        saved, st.capture = st.capture, None
+        try:
+            st.assume(fact)
+        finally:
+            st.capture = saved
+        cache[key] = (ds, V._z(v))  # keep the term alive: ids are only unique among live terms
+    return cache[key][0]
+
+
+def digit_char(d, base=16):
+    """The (lower-case) digit character of the value 0 <= d < base."""
+    return 48 + d if base == 10 else ite(d < 10, 48 + d, 87 + d)
+
+
+def cstr_fstring(ip, st, pieces):
+    out = CStr.of("")
+    for p in pieces:
+        if isinstance(p, str):
+            part = CStr.of(p)
+        else:
+            x, spec, conv = p
+            x = st.force(x)
+            if conv != -1:
+                return NotImplemented
+            if isinstance(x, (str, CStr)) and spec == "":
+                part = CStr.of(x)
+            elif (isinstance(x, SInt) or _isint(x)) and not isinstance(x, (bool, SBool)):
+                part = fmt_int(st, x, spec)
+                if part is NotImplemented:
+                    return NotImplemented
+            else:
+                return NotImplemented
+        out = cs_concat(out, part)
+    return out
+
+
+class StrShape(Shape):
+    """A fresh modelled str: symbolic length (0 <= n <= max_len when given), every character a code point."""
+
+    def __init__(self, max_len=None):
+        self.max_len = max_len
+
+    def fresh(self, st, hint):
+        n = st.fresh_int(hint + "_len")
+        st.assume(n >= 0)
+        if self.max_len is not None:
+            st.assume(n <= self.max_len)
+        f = z3.Function(st.fresh_name(hint + "$code"), z3.IntSort(), z3.IntSort())
+
+        def at(j):
+            e = f(V._z(j))
+            cur().assume(z3.And(e >= 0, e < MAX_CODE))
+            return mk_int(e)
+
+        return CStr(n, at)
+
+    def __repr__(self):
+        return f"Str(max_len={self.max_len})"
+
+
+Str = StrShape
+
+
+# ---------------------------------------------------------------------------------------------------------------
+# Module constants: the lookup / step / RGB tables are read from the REAL module (the one pyvc analyses; a mutated
+# scratch copy when tools/mut.py runs) and enter the VCs as one uninterpreted function per table and component
+# with its ground defining equations — `T[i]` with a symbolic i is then a term, not a 256-way fork.
+# ---------------------------------------------------------------------------------------------------------------
+INT_TABLES = (
+    "_CUBE_256_LOOKUP_16", "_CUBE_88_LOOKUP_16", "_GRAY_256_LOOKUP", "_GRAY_88_LOOKUP", "_GRAY_256_LOOKUP_101",
+    "_GRAY_88_LOOKUP_101", "_CUBE_STEPS_256_16", "_CUBE_STEPS_88_16", "_GRAY_STEPS_256_101", "_GRAY_STEPS_88_101",
+    "_CUBE_STEPS_256", "_CUBE_STEPS_88", "_GRAY_STEPS_256", "_GRAY_STEPS_88",
+)
+RGB_TABLES = ("_COLOR_VALUES_256", "_COLOR_VALUES_88")
+
+
+def real_const(name):
+    return getattr(SRC.module("urwid/display/common.py").real, name)
+
+
+def _table_fns(name):
+    k = 3 if name in RGB_TABLES else 1
+    return [z3.Function(f"{name}${c}", z3.IntSort(), z3.IntSort()) for c in range(k)]
+
+
+def _table_axioms(st, name):
+    done = st.ghost.setdefault("c18_tables", set())
+    if name in done:
+        return
+    done.add(name)
+    data = real_const(name)
+    fns = _table_fns(name)
+    facts = []
+    for i, row in enumerate(data):
+        row = row if name in RGB_TABLES else (row,)
+        facts.extend(f(z3.IntVal(i)) == z3.IntVal(int(x)) for f, x in zip(fns, row))
+    saved, st.capture = st.capture, None
+    try:
+        st.assume(z3.And(*facts))
+    finally:
+        st.capture = saved
+
+
+def T(name, i):
+    """Entry i of the real module's table `name` (spec side): an int, or an (r, g, b) triple."""
+    data = real_const(name)
+    if _isint(i):
+        if 0 <= i < len(data):
+            return data[i]
+        return (0, 0, 0) if name in RGB_TABLES else 0  # outside the table: a placeholder (only under a false guard)
+    _table_axioms(cur(), name)
+    vals = [mk_int(f(V._z(i))) for f in _table_fns(name)]
+    return tuple(vals) if name in RGB_TABLES else vals[0]
+
+
+def tlen(name):
+    return len(real_const(name))
+
+
+def tables_setup(st, self_obj, vals):
+    """Program side: the same tables as sequences whose symbolic subscripts are those function terms."""
+    g = st.ghost.setdefault("globals", {})
+    for name in INT_TABLES + RGB_TABLES:
+        data = real_const(name)
+        seq = Q.SSeq(len(data), (lambda i, name=name: T(name, i)), None, None, name)
+        g[name] = Q.LRef(seq) if isinstance(data, list) else seq
+    g["_BASIC_COLORS"] = tuple(real_const("_BASIC_COLORS"))  # the list of names, immutable here: subscript by a symbolic int forks
+
+
+# ---------------------------------------------------------------------------------------------------------------
+# Spec vocabulary for the colour descriptions
+# ---------------------------------------------------------------------------------------------------------------
+H, HASH, G = ord("h"), ord("#"), ord("g")
+
+
+class Pal:
+    """The two palettes: cube side, gray-ramp length and the names of the module's tables."""
+
+    def __init__(self, tag, colours, cube, grays):
+        self.tag, self.colours, self.cube, self.grays = tag, colours, cube, grays
+        self.gray_start = 16 + cube**3
+        self.white = self.gray_start - 1
+        self.lookup16 = f"_CUBE_{tag}_LOOKUP_16"
+        self.gray_lookup = f"_GRAY_{tag}_LOOKUP"
+        self.gray_lookup101 = f"_GRAY_{tag}_LOOKUP_101"
+        self.steps = f"_CUBE_STEPS_{tag}"
+        self.gray_steps = f"_GRAY_STEPS_{tag}"
+        self.steps16 = f"_CUBE_STEPS_{tag}_16"
+        self.gray_steps101 = f"_GRAY_STEPS_{tag}_101"
+        self.values = f"_COLOR_VALUES_{tag}"
+
+
+P256 = Pal("256", 256, 6, 24)
+P88 = Pal("88", 88, 4, 8)
+
+
+def digits_at(s, start, base, maxdigits):
+    """(wellformed, value): s[start:] is 1..maxdigits ASCII digits of the base, to the end of s; their value."""
+    n = cs_len(s)
+    k = n - start
+    wf = both(k >= 1, k <= maxdigits, *[implies(start + i < n, is_digit(cs_at(s, start + i), base)) for i in range(maxdigits)])
+    value = 0
+    for m in range(maxdigits, 0, -1):
+        value = ite(k == m, digits_value([cs_at(s, start + i) for i in range(m)], base), value)
+    return wf, value
+
+
+def dec_str(v, maxdigits=3):
+    """The decimal numeral of 0 <= v < 10**maxdigits as a modelled str."""
+    n = maxdigits
+    for m in range(maxdigits - 1, 0, -1):
+        n = ite(v < 10**m, m, n)
+
+    def at(j):
+        r = 0
+        for m in range(1, maxdigits + 1):
+            digs = [48 + (v // 10 ** (m - 1 - i)) % 10 for i in range(m)] + [0] * (maxdigits - m)
+            r = ite(n == m, _pick(digs, j), r)
+        return r
+
+    return CStr(n, at)
+
+
+def cube_coords(p, num):
+    """(r, g, b) cube coordinates of the colour number num of the palette's cube."""
+    c = num - 16
+    return c // (p.cube * p.cube), (c // p.cube) % p.cube, c % p.cube
+
+
+def cube_number(p, r, g, b):
+    return 16 + (r * p.cube + g) * p.cube + b
+
+
+def gray_number(p, k):
+    """Colour number of entry k of [black, *gray ramp, white] (black and white are the cube's)."""
+    return ite(k == 0, 16, ite(k == p.grays + 1, p.white, p.gray_start + k - 1))
+
+
+def gray_ext(p, i):
+    """Entry i of the list the gray lookup tables are built from: [0, *_GRAY_STEPS, 255]."""
+    return ite(i <= 0, 0, ite(i >= p.grays + 1, 255, T(p.gray_steps, i - 1)))
+
+
+def int_scale_spec(v, val_range, out_range):
+    """v on the scale 0..val_range-1 rescaled to 0..out_range-1, rounded half up (what util.int_scale computes)."""
+    return (2 * v * (out_range - 1) + (val_range - 1)) // (2 * (val_range - 1))
+
+
+def nearest(value_at, size, v, idx):
+    """idx is the index of an entry nearest to v among value_at(0..size-1) (ascending); a tie goes to the upper
+    neighbour — the rule _value_lookup_table implements (its own contract: `each-entry-is-the-nearest-value`)."""
+    return both(0 <= idx, idx < size,
+                implies(idx > 0, 2 * v >= value_at(idx - 1) + value_at(idx)),
+                implies(idx < size - 1, 2 * v < value_at(idx) + value_at(idx + 1)))
+
+
+def _int_arg(x):
+    """An int argument at a call site: None there is the TypeError CPython raises on `0 <= None`."""
+    x = cur().force(x)
+    if x is None:
+        raise PyRaise(SExc(TypeError, ("'<=' not supported between instances of 'int' and 'NoneType'",), site="builtin"))
+    return x
+
+
+def desc_spec_clauses(p, num, result):
+    """What _color_desc_<p>(num) is, region by region (shared by the 256- and 88-colour describers)."""
+    r, g, b = cube_coords(p, num)
+    yield "returns-only-for-a-colour-number-of-the-palette", both(0 <= num, num < p.colours)
+    yield "basic-colours-are-h-and-the-decimal-number", implies(num < 16, cs_eq(result, cs_concat(CStr.of("h"), dec_str(num, 2)), 4))
+    cube = CStr.codes([HASH, digit_char(T(p.steps16, r)), digit_char(T(p.steps16, g)), digit_char(T(p.steps16, b))])
+    yield "cube-colours-are-hash-and-the-three-step-digits", implies(both(16 <= num, num < p.gray_start), cs_eq(result, cube, 4))
+    gray = cs_concat(CStr.of("g"), dec_str(T(p.gray_steps101, num - p.gray_start), 3))
+    yield "grays-are-g-and-the-percentage", implies(num >= p.gray_start, cs_eq(result, gray, 4))
+
+
+@contract(DC + "_color_desc_256", property="C18", replayable=False)
+class color_desc_256:
+    params = dict(num=Int)
+    result = Str(4)
+    raises = (ValueError,)
+    raises_iff = {ValueError: lambda a: neg(both(0 <= _int_arg(a.num), _int_arg(a.num) < 256))}
+    setup = staticmethod(tables_setup)
+    fstring = staticmethod(cstr_fstring)
+
+    def ensures(a, result):
+        yield from desc_spec_clauses(P256, a.num, result)
+        if not cur().ghost.get("c18_no_roundtrip"):
+            back = parse_color_256.spec_value(None, desc=result)
+            yield "the-description-parses-back-to-the-number", opt_eq(back, a.num)
+
+    def ensures_callee(a, result):
+        yield from desc_spec_clauses(P256, _int_arg(a.num), result)
+
+    def on_raise(a, exc):
+        yield "raises-only-outside-the-palette", neg(both(0 <= a.num, a.num < 256))
+
+
+@contract(DC + "_color_desc_88", property="C18", replayable=False)
+class color_desc_88:
+    params = dict(num=Int)
+    result = Str(4)
+    raises = (ValueError,)
+    raises_iff = {ValueError: lambda a: neg(both(0 <= _int_arg(a.num), _int_arg(a.num) < 88))}
+    setup = staticmethod(tables_setup)
+    fstring = staticmethod(cstr_fstring)
+
+    def ensures(a, result):
+        yield from desc_spec_clauses(P88, a.num, result)
+        back = parse_color_88.spec_value(None, desc=result)
+        yield "the-description-parses-back-to-the-number", opt_eq(back, a.num)
+
+    def ensures_callee(a, result):
+        yield from desc_spec_clauses(P88, _int_arg(a.num), result)
+
+    def on_raise(a, exc):
+        yield "raises-only-outside-the-palette", neg(both(0 <= a.num, a.num < 88))
+
+
+def hex_all(s):
+    n = cs_len(s)
+    if _isint(n):
+        return both(True, *[is_hex(cs_at(s, i)) for i in range(n)])
+    return forall(0, n, lambda j: is_hex(s.at(j)))
+
+
+def _is_hex_spec(a):
+    st = cur()
+    s = a.text
+    if isinstance(s, CStr) and not _isint(s.n) and not st.ghost.get("c18_verifying_is_hex"):
+        k = cs_concrete_len(st, s, 8)  # call sites: split over the short lengths, so the answer is quantifier-free there
+        if k is not None:
+            s = CStr.codes([s.at(i) for i in range(k)])
+    return hex_all(s)
+
+
+def _is_hex_setup(st, self_obj, vals):
+    st.ghost["c18_verifying_is_hex"] = True
+
+
+@contract(DC + "_is_hex", property="C18", replayable=False)
+class is_hex_text:
+    params = dict(text=Str())
+    result = Bool
+    raises = ()
+    setup = staticmethod(_is_hex_setup)
+    pure_spec = staticmethod(_is_hex_spec)
+
+    def ensures(a, result):
+        yield "true-exactly-for-ascii-hex-digits-only", result == hex_all(a.text)
+
+
+def opt_parts(x):
+    """(is-none formula, value) of an optional int; the value is 0 where it is None (never forks)."""
+    if x is None:
+        return True, 0
+    return opt_isnone(x), val(x)
+
+
+def parse_spec_clauses(p, s, result):
+    """What _parse_color_<p>(s) returns for a description s of at most four characters' relevance."""
+    s = cur().force(s)  # an optional str argument (`x or y`) is a str here
+    n = cs_len(s)
+    none, rv = opt_parts(result)
+    c0 = cs_at(s, 0)
+    yield "a-colour-number-of-the-palette-or-none", either(none, both(0 <= rv, rv < p.colours))
+    if p is P88:
+        # 88 colours only: '#rrggbb' is read as '#rgb' with the HIGH digit of each component
+        six = [cs_at(s, i) for i in range(1, 7)]
+        rrggbb = both(n == 7, c0 == HASH, *[is_hex(x) for x in six])
+        hi = [T(p.lookup16, digit_val(x, 16)) for x in (six[0], six[2], six[4])]
+        yield "hash-rrggbb-is-the-cube-colour-of-the-three-high-digits", implies(rrggbb, both(neg(none), rv == cube_number(p, *hi)))
+        yield "longer-than-four-characters-is-rejected", implies(both(n > 4, neg(rrggbb)), none)
+    else:
+        yield "longer-than-four-characters-is-rejected", implies(n > 4, none)
+    yield "other-first-characters-are-rejected", implies(both(n <= 4, either(n == 0, both(c0 != H, c0 != HASH, c0 != G))), none)
+    # 'hN'
+    hwf, hv = digits_at(s, 1, 10, 3)
+    yield "hN-is-colour-number-N-when-in-the-palette", implies(both(n <= 4, c0 == H, hwf), ite(hv < p.colours, both(neg(none), rv == hv), none))
+    # '#rgb'
+    d = [cs_at(s, i) for i in (1, 2, 3)]
+    cube = both(n == 4, c0 == HASH, *[is_hex(x) for x in d])
+    idx = [T(p.lookup16, digit_val(x, 16)) for x in d]
+    yield "hash-rgb-is-the-cube-colour-of-the-three-looked-up-steps", implies(cube, both(neg(none), rv == cube_number(p, *idx), 16 <= rv, rv < p.gray_start))
+    yield "each-cube-step-is-a-nearest-step-of-the-xterm-table", implies(cube, both(*[nearest(lambda i: T(p.steps, i), p.cube, int_scale_spec(digit_val(x, 16), 16, 256), k) for x, k in zip(d, idx)]))
+    yield "exact-step-values-are-preserved", implies(cube, both(*[implies(int_scale_spec(digit_val(x, 16), 16, 256) == T(p.steps, j), k == j) for x, k in zip(d, idx) for j in range(p.cube)]))
+    yield "hash-without-exactly-three-hex-digits-is-rejected", implies(both(n >= 1, n <= 4, c0 == HASH, neg(cube)), none)
+    # 'g#XX'
+    xwf, xv = digits_at(s, 2, 16, 2)
+    ghex = both(n <= 4, n >= 2, c0 == G, cs_at(s, 1) == HASH, xwf)
+    kx = T(p.gray_lookup, xv)
+    yield "g-hash-XX-is-the-gray-nearest-to-XX", implies(ghex, both(neg(none), rv == gray_number(p, kx), nearest(lambda i: gray_ext(p, i), p.grays + 2, xv, kx)))
+    # 'gN'
+    gwf, gv = digits_at(s, 1, 10, 3)
+    gdec = both(n <= 4, c0 == G, gwf)
+    kg = T(p.gray_lookup101, imin(gv, 100))
+    yield "gN-is-the-gray-nearest-to-N-percent", implies(both(gdec, gv <= 100), both(neg(none), rv == gray_number(p, kg), nearest(lambda i: gray_ext(p, i), p.grays + 2, int_scale_spec(gv, 101, 256), kg)))
+    yield "more-than-100-percent-is-rejected", implies(both(gdec, gv > 100), none)
+
+
+@contract(DC + "_parse_color_256", property="C18", replayable=False)
+class parse_color_256:
+    params = dict(desc=Str())
+    result = Opt(Int)
+    raises = ()
+    setup = staticmethod(tables_setup)
+    static_checks = [_xcheck_cstr]
+
+    def ensures(a, result):
+        yield from parse_spec_clauses(P256, a.desc, result)
+
+
+@contract(DC + "_parse_color_88", property="C18", replayable=False)
+class parse_color_88:
+    params = dict(desc=Str())
+    result = Opt(Int)
+    raises = ()
+    setup = staticmethod(tables_setup)
+
+    def ensures(a, result):
+        yield from parse_spec_clauses(P88, a.desc, result)
+
+
+def cstr_call_real(ip, st, f, args, kwargs):
+    """Builtins applied to modelled values: format(int, spec), "".join(strs), list.index(str), hash((cls, int))."""
+    owner = getattr(f, "__self__", None)
+    name = getattr(f, "__name__", "")
+    if f is format and len(args) == 2 and isinstance(args[1], str) and isinstance(args[0], SInt):
+        return fmt_int(st, args[0], args[1])
+    if name == "join" and owner == "" and len(args) == 1:
+        items = args[0].seq if isinstance(args[0], Q.LRef) else args[0]
+        if isinstance(items, tuple) and all(isinstance(x, (str, CStr)) for x in items):
+            out = CStr.of("")
+            for x in items:
+                out = cs_concat(out, CStr.of(x))
+            return out
+    if name == "index" and isinstance(owner, (list, tuple)) and len(args) == 1 and isinstance(args[0], CStr) and all(isinstance(x, str) for x in owner):
+        # first position whose item equals the str; ValueError when there is none
+        conds, none_before = [], True
+        for item in owner:
+            e = args[0] == item
+            conds.append(both(none_before, e))
+            none_before = both(none_before, neg(e))
+        j = st.choose(conds + [none_before])
+        if j == len(owner):
+            raise PyRaise(SExc(ValueError, ("x not in list",), site="builtin"))
+        return j
+    if f is hash and len(args) == 1 and isinstance(args[0], tuple) and len(args[0]) == 2 and isinstance(args[0][0], type):
+        # hash of a (class, int) pair: some function of the pair (all that is known of hash())
+        x = args[0][1]
+        return mk_int(HASH_PAIR(z3.IntVal(V.atom_code("class:" + args[0][0].__qualname__)), V._z(x.to_int() if hasattr(x, "to_int") else x)))
+    return NotImplemented
+
+
+HASH_PAIR = z3.Function("hash$class-int-pair", z3.IntSort(), z3.IntSort(), z3.IntSort())
+
+
+def hex6(num):
+    return CStr.codes([HASH] + [digit_char(d) for d in digits_of(cur(), num, 16, 6)])
+
+
+@contract(DC + "_color_desc_true", property="C18", replayable=False)
+class color_desc_true:
+    params = dict(num=Int)
+    result = Str(7)
+    raises = ()
+    fstring = staticmethod(cstr_fstring)
+    setup = staticmethod(tables_setup)
+
+    def requires(a):
+        return both(0 <= a.num, a.num < 2**24)
+
+    def ensures(a, result):
+        yield "hash-and-six-lower-case-hex-digits-most-significant-first", cs_eq(result, hex6(a.num))
+        back = parse_color_true.spec_value(None, desc=result)
+        yield "the-description-parses-back-to-the-number", opt_eq(back, a.num)
+
+    def ensures_callee(a, result):
+        yield "hash-and-six-lower-case-hex-digits-most-significant-first", cs_eq(result, hex6(a.num))
+
+
+def pack_rgb(t):
+    return t[0] * 65536 + t[1] * 256 + t[2]
+
+
+def parse_true_clauses(s, result):
+    p = P256
+    n = cs_len(s)
+    none, rv = opt_parts(result)
+    c0 = cs_at(s, 0)
+    rgb = lambda c: pack_rgb(T(p.values, c))  # noqa: E731
+    yield "a-24-bit-colour-or-none", either(none, both(0 <= rv, rv < 2**24))
+    yield "other-first-characters-are-rejected", implies(either(n == 0, both(c0 != H, c0 != HASH, c0 != G)), none)
+    six = [cs_at(s, i) for i in range(1, 7)]
+    rrggbb = both(n == 7, c0 == HASH, *[is_hex(x) for x in six])
+    yield "hash-rrggbb-is-its-own-value", implies(rrggbb, both(neg(none), rv == digits_value(six, 16)))
+    d = [cs_at(s, i) for i in (1, 2, 3)]
+    cube = both(n == 4, c0 == HASH, *[is_hex(x) for x in d])
+    idx = [T(p.lookup16, digit_val(x, 16)) for x in d]
+    yield "hash-rgb-takes-the-xterm-rgb-of-its-256-colour-cube-entry", implies(cube, both(neg(none), rv == rgb(cube_number(p, *idx))))
+    yield "hash-without-three-or-six-hex-digits-is-rejected", implies(both(n >= 1, c0 == HASH, neg(cube), neg(rrggbb)), none)
+    yield "longer-than-four-characters-without-hash-is-rejected", implies(both(n > 4, c0 != HASH), none)
+    hwf, hv = digits_at(s, 1, 10, 3)
+    yield "hN-takes-the-xterm-rgb-of-colour-number-N", implies(both(n <= 4, c0 == H, hwf), ite(hv < 256, both(neg(none), rv == rgb(imin(hv, 255))), none))
+    xwf, xv = digits_at(s, 2, 16, 2)
+    ghex = both(n <= 4, n >= 2, c0 == G, cs_at(s, 1) == HASH, xwf)
+    yield "g-hash-XX-takes-the-xterm-rgb-of-the-nearest-gray", implies(ghex, both(neg(none), rv == rgb(gray_number(p, T(p.gray_lookup, xv)))))
+    gwf, gv = digits_at(s, 1, 10, 3)
+    gdec = both(n <= 4, c0 == G, gwf)
+    yield "gN-takes-the-xterm-rgb-of-the-nearest-gray", implies(both(gdec, gv <= 100), both(neg(none), rv == rgb(gray_number(p, T(p.gray_lookup101, imin(gv, 100))))))
+    yield "more-than-100-percent-is-rejected", implies(both(gdec, gv > 100), none)
+
+
+@contract(DC + "_parse_color_true", property="C18", replayable=False)
+class parse_color_true:
+    params = dict(desc=Str())
+    result = Opt(Int)
+    raises = ()
+    setup = staticmethod(tables_setup)
+    fstring = staticmethod(cstr_fstring)
+
+    def ensures(a, result):
+        yield from parse_true_clauses(a.desc, result)
+
+
+def true_to_256_clauses(s, result):
+    n = cs_len(s)
+    six = [cs_at(s, i) for i in range(1, 7)]
+    rrggbb = both(n == 7, cs_at(s, 0) == HASH, *[is_hex(x) for x in six])
+    rnone = result is None or (opt_isnone(result) if isinstance(result, V.SOpt) else False)
+    rs = val(result) if result is not None else CStr.of("")
+    yield "none-unless-hash-and-six-hex-digits", implies(neg(rrggbb), rnone)
+    p = P256
+    steps = [T(p.steps16, T(p.lookup16, digit_val(x, 16))) for x in (six[0], six[2], six[4])]
+    want = CStr.codes([HASH] + [digit_char(v) for v in steps])
+    yield "hash-rrggbb-becomes-the-description-of-the-cube-colour-nearest-to-its-high-digits", implies(rrggbb, both(neg(rnone), cs_eq(rs, want, 4)))
+
+
+@contract(DC + "_true_to_256", property="C18", replayable=False)
+class true_to_256:
+    params = dict(desc=Str())
+    result = Opt(Str(4))
+    raises = ()
+    setup = staticmethod(tables_setup)
+    fstring = staticmethod(cstr_fstring)
+    call_real = staticmethod(cstr_call_real)
+
+    def ensures(a, result):
+        yield from true_to_256_clauses(a.desc, result)
+
+
+# =============================================================================================================
+# AttrSpec: the packed 62-bit word `_AttrSpec__value`
+#
+# Integer div/mod (and BitVec<->Int conversions) on a 62-bit word make queries that z3 does not finish, so the word
+# is modelled STRUCTURALLY: BitWord = one small integer per bit field of the layout the module's own mask constants
+# define (foreground number: bits 0-23, background number: bits 24-47, one field per flag bit 48-61).  The bit
+# operations the class performs are given field by field (each rule is exact for words of that layout, and
+# Unsupported where a constant mask would cut through a field); cross-checked against CPython's int operators by
+# the static check `bitword-operations-agree-with-cpython`.
+#   w & m (m < 0, "clear fields")  -> BitWord;   w & m (m >= 0, "extract fields") -> the plain int value of those fields
+#   w | x  (x a BitWord, a constant, or an int provably inside the foreground / background number field) -> BitWord
+#          (a number field of which both operands may be non-zero: over-approximated by max(a,b) <= a|b <= a+b)
+#   w == x, w != x, bool(w), hash((cls, w)) via the word's integer value  sum field * 2**lo
+# =============================================================================================================
+
+
+def K(name):
+    return real_const(name)
+
+
+LAYOUT = ((0, 24), (24, 24)) + tuple((k, 1) for k in range(48, 62))  # (lowest bit, width) of every field
+FG, BG = 0, 1
+
+
+def _layout_matches_module():
+    """The layout above is the one the module's constants define."""
+    ok = K("_FG_COLOR_MASK") == 2**24 - 1 and K("_BG_COLOR_MASK") == (2**24 - 1) << 24 and K("_BG_SHIFT") == 24
+    flags = ["_FG_BASIC_COLOR", "_FG_HIGH_COLOR", "_FG_TRUE_COLOR", "_BG_BASIC_COLOR", "_BG_HIGH_COLOR", "_BG_TRUE_COLOR", "_HIGH_88_COLOR",
+             "_HIGH_TRUE_COLOR", "_STANDOUT", "_UNDERLINE", "_BOLD", "_BLINK", "_ITALICS", "_STRIKETHROUGH"]
+    bits = sorted(K(n).bit_length() - 1 for n in flags)
+    ok = ok and all(K(n) == 1 << (K(n).bit_length() - 1) for n in flags) and bits == list(range(48, 62))
+    return "bit-field-layout-is-the-modules", ok, f"flag bits {bits}"
+
+
+def bit_index(name):
+    """Index in LAYOUT of the one-bit field of the module constant `name`."""
+    return 2 + (K(name).bit_length() - 1 - 48)
+
+
+class BitWord(ModelObj):
+    def __init__(self, parts):
+        self.parts = list(parts)
+
+    @staticmethod
+    def of_int(x):
+        return BitWord([(x >> lo) & ((1 << w) - 1) for lo, w in LAYOUT])
+
+    @staticmethod
+    def lift(st, x):
+        """A BitWord for x: a BitWord, a plain int in 0..2**62-1, or a symbolic int provably confined to the
+        foreground number field (0 <= x < 2**24) or the background number field (a multiple of 2**24 below 2**48)."""
+        if isinstance(x, BitWord):
+            return x
+        if isinstance(x, (bool, SBool)):
+            raise Unsupported("a bool as a bit word")
+        if _isint(x):
+            if not 0 <= x < 2**62:
+                raise Unsupported("bit word outside 0..2**62-1")
+            return BitWord.of_int(x)
+        if isinstance(x, SInt):
+            zero = [0] * len(LAYOUT)
+            r, _m = st._check(z3.Not(V._zb(both(0 <= x, x < 2**24))), st.cfg.branch_timeout_ms)
+            if r == z3.unsat:
+                return BitWord([x] + zero[1:])
+            r, _m = st._check(z3.Not(V._zb(both(0 <= x, x < 2**48, x % 2**24 == 0))), st.cfg.branch_timeout_ms)
+            if r == z3.unsat:
+                return BitWord([0, x // 2**24] + zero[2:])
+        raise Unsupported(f"cannot place {x!r} in the bit-field layout")
+
+    def to_int(self):
+        total = 0
+        for (lo, _w), p in zip(LAYOUT, self.parts):
+            total = total + p * (1 << lo)
+        return total
+
+    def and_const(self, m):
+        out = []
+        for (lo, w), p in zip(LAYOUT, self.parts):
+            full = (1 << w) - 1
+            fm = (m >> lo) & full
+            if fm == full:
+                out.append(p)
+            elif fm == 0:
+                out.append(0)
+            elif _isint(p):
+                out.append(p & fm)
+            else:
+                raise Unsupported(f"mask {m:#x} cuts through the bit field at bit {lo}")
+        if m >= 0 and m >> 62:
+            raise Unsupported("mask beyond the 62-bit layout")
+        return BitWord(out)
+
+    def or_word(self, st, o):
+        out = []
+        for (lo, w), p, q in zip(LAYOUT, self.parts, o.parts):
+            if _isint(p) and _isint(q):
+                out.append(p | q)
+            elif _isint(q) and q == 0:
+                out.append(p)
+            elif _isint(p) and p == 0:
+                out.append(q)
+            elif w == 1:
+                out.append(imax(p, q))
+            else:
+                for a, b in ((p, q), (q, p)):
+                    r, _m = st._check(z3.Not(V._zb(a == 0)), st.cfg.branch_timeout_ms)
+                    if r == z3.unsat:
+                        out.append(b)
+                        break
+                else:
+                    # both numbers may be non-zero (never so in the unchanged code): a | b is some r with
+                    # max(a, b) <= r <= a + b — true of | on non-negative ints; an over-approximation, not exact
+                    r = st.fresh_int("or24")
+                    st.assume(both(r >= p, r >= q, r <= p + q, r < (1 << w)))
+                    out.append(r)
+        return BitWord(out)
+
+    # ---- dispatch
+    def py_binop(self, ip, st, op, other, reflected):
+        import ast as _ast
+
+        if isinstance(op, _ast.BitAnd):
+            if _isint(other):
+                r = self.and_const(other)
+                return r if other < 0 else r.to_int()
+            if isinstance(other, BitWord) and all(_isint(p) for p in other.parts):
+                return self.and_const(other.to_int()).to_int()
+        if isinstance(op, _ast.BitOr):
+            return self.or_word(st, BitWord.lift(st, other))
+        return NotImplemented
+
+    def py_truth(self, st):
+        return either(*[p != 0 for p in self.parts])
+
+    def __eq__(self, o):
+        if isinstance(o, (bool, SBool)) or not (isinstance(o, (BitWord, SInt)) or _isint(o)):
+            return False
+        if isinstance(o, SInt):
+            return self.to_int() == o
+        if _isint(o) and not 0 <= o < 2**62:
+            return False
+        o = o if isinstance(o, BitWord) else BitWord.of_int(o)
+        return both(*[p == q for p, q in zip(self.parts, o.parts)])
+
+    def __ne__(self, o):
+        return neg(self.__eq__(o))
+
+    __hash__ = object.__hash__
+
+    def py_concretize(self, model):
+        v = 0
+        for (lo, _w), p in zip(LAYOUT, self.parts):
+            v += (p if _isint(p) else model.eval(V._z(p), model_completion=True).as_long()) << lo
+        return hex(v)
+
+    def __repr__(self):
+        return f"BitWord({self.parts!r})"
+
+
+class WordShape(Shape):
+    def fresh(self, st, hint):
+        parts = []
+        for lo, w in LAYOUT:
+            p = st.fresh_int(f"{hint}@{lo}")
+            st.assume(both(0 <= p, p < (1 << w)))
+            parts.append(p)
+        return BitWord(parts)
+
+    def __repr__(self):
+        return "Word62"
+
+
+def _xcheck_bitword():
+    """BitWord's rules on concrete words against CPython's &, |, ==, bool."""
+    import random
+
+    rnd = random.Random(18)
+    masks = [K(n) for n in ("_FG_COLOR_MASK", "_BG_COLOR_MASK", "_FG_MASK", "_BG_MASK", "_FG_BASIC_COLOR", "_BG_HIGH_COLOR", "_HIGH_88_COLOR", "_BOLD")]
+    masks += [~m for m in masks] + [K("_BG_HIGH_COLOR") | K("_FG_HIGH_COLOR")]
+    bad = []
+    for _ in range(3000):
+        x, y = rnd.getrandbits(62), rnd.getrandbits(62)
+        if rnd.random() < 0.5:
+            y &= rnd.choice(masks) & (2**62 - 1)
+        wx, wy = BitWord.of_int(x), BitWord.of_int(y)
+        if wx.to_int() != x:
+            bad.append(("to_int", x))
+        for m in masks:
+            if wx.and_const(m).to_int() != x & m:
+                bad.append(("and", x, m))
+        if wx.or_word(None, wy).to_int() != x | y:
+            bad.append(("or", x, y))
+        if bool(wx == wy) != (x == y) or bool(wx.py_truth(None)) != bool(x):
+            bad.append(("eq/truth", x, y))
+    return "bitword-operations-agree-with-cpython", not bad, f"3000 random words x {len(masks)} masks; mismatches: {bad[:3]}"
+
+
+ATTRSPEC = real_const("AttrSpec")
+WORD = "_AttrSpec__value"
+SPEC = Obj(ATTRSPEC, {WORD: WordShape()})
+STYLE_NAMES = ("_STANDOUT", "_UNDERLINE", "_BOLD", "_BLINK", "_ITALICS", "_STRIKETHROUGH")
+GETTERS = tuple(f"AttrSpec.{n}" for n in (
+    "foreground_basic", "foreground_high", "foreground_true", "foreground_number", "background_basic", "background_high",
+    "background_true", "background_number", "italics", "bold", "underline", "blink", "standout", "strikethrough", "_value"))
+
+
+def word(s):
+    w = s.fields[WORD]
+    return w if isinstance(w, BitWord) else BitWord.lift(cur(), w)
+
+
+def flag(v, name):
+    return v.parts[bit_index(name)] != 0
+
+
+def fg_number(v):
+    return v.parts[FG]
+
+
+def bg_number(v):
+    return v.parts[BG]
+
+
+def same_outside(v1, v0, names, numbers=()):
+    """Every field other than the named flag bits and number fields is the same in v1 and v0."""
+    skip = {bit_index(n) for n in names} | set(numbers)
+    return both(*[p == q for i, (p, q) in enumerate(zip(v1.parts, v0.parts)) if i not in skip])
+
+
+FG_OWN = ("_FG_BASIC_COLOR", "_FG_HIGH_COLOR", "_FG_TRUE_COLOR") + STYLE_NAMES
+BG_OWN = ("_BG_BASIC_COLOR", "_BG_HIGH_COLOR", "_BG_TRUE_COLOR")
+
+
+def side_wf(v, basic, high, true, number):
+    """One side (foreground or background) of a well-formed word: at most one kind; the kind fits the declared
+    depth (true colours only in 2**24 mode, palette colours only outside it); the number fits the kind."""
+    m88, mtrue = flag(v, "_HIGH_88_COLOR"), flag(v, "_HIGH_TRUE_COLOR")
+    return both(
+        neg(both(basic, high)), neg(both(basic, true)), neg(both(high, true)),
+        implies(true, mtrue), implies(high, neg(mtrue)),
+        implies(neg(either(basic, high, true)), number == 0),
+        implies(basic, number < 16),
+        implies(high, number < ite(m88, 88, 256)),
+    )
+
+
+def wf(v):
+    """Representation invariant of AttrSpec (what __init__ establishes and the accessors rely on)."""
+    return both(
+        neg(both(flag(v, "_HIGH_88_COLOR"), flag(v, "_HIGH_TRUE_COLOR"))),
+        side_wf(v, flag(v, "_FG_BASIC_COLOR"), flag(v, "_FG_HIGH_COLOR"), flag(v, "_FG_TRUE_COLOR"), fg_number(v)),
+        side_wf(v, flag(v, "_BG_BASIC_COLOR"), flag(v, "_BG_HIGH_COLOR"), flag(v, "_BG_TRUE_COLOR"), bg_number(v)),
+    )
+
+
+def RI(s):
+    return wf(word(s))
+
+
+def colors_spec(v):
+    any_high = either(flag(v, "_FG_HIGH_COLOR"), flag(v, "_BG_HIGH_COLOR"))
+    any_true = either(flag(v, "_FG_TRUE_COLOR"), flag(v, "_BG_TRUE_COLOR"))
+    any_basic = either(flag(v, "_FG_BASIC_COLOR"), flag(v, "_BG_BASIC_COLOR"))
+    return ite(flag(v, "_HIGH_88_COLOR"), 88, ite(any_high, 256, ite(any_true, 2**24, ite(any_basic, 16, 1))))
+
+
+@contract(DC + "AttrSpec.colors", property="C18", replayable=False)
+class attrspec_colors:
+    self_shape = SPEC
+    params = {}
+    result = Int
+    raises = ()
+
+    def ensures(old, s, a, result):
+        v = word(s)
+        any_high = either(flag(v, "_FG_HIGH_COLOR"), flag(v, "_BG_HIGH_COLOR"))
+        any_true = either(flag(v, "_FG_TRUE_COLOR"), flag(v, "_BG_TRUE_COLOR"))
+        any_basic = either(flag(v, "_FG_BASIC_COLOR"), flag(v, "_BG_BASIC_COLOR"))
+        m88 = flag(v, "_HIGH_88_COLOR")
+        yield "declared-88-colour-mode-is-reported-as-88", implies(m88, result == 88)
+        yield "one-of-the-five-depths", either(*[result == d for d in (1, 16, 88, 256, 2**24)])
+        yield "enough-for-every-colour-present", implies(both(wf(v), neg(m88)), both(implies(any_true, result >= 2**24), implies(any_high, result >= 256), implies(any_basic, result >= 16)))
+        yield "no-more-than-some-colour-present-needs", implies(neg(m88), both(implies(result >= 2**24, any_true), implies(result >= 256, either(any_true, any_high)), implies(result >= 16, either(any_true, any_high, any_basic))))
+        yield "the-depth-by-flag-priority", result == colors_spec(v)
+        yield "word-unchanged", word(s) == word(old)
+
+
+@contract(DC + "AttrSpec.__eq__", property="C18", replayable=False)
+class attrspec_eq:
+    self_shape = SPEC
+    params = dict(other=Union(SPEC, Int, Const(None)))
+    result = Bool
+    raises = ()
+    inline = GETTERS
+
+    def ensures(old, s, a, result):
+        if isinstance(a.other, Q.SObj):
+            yield "equal-exactly-when-the-packed-words-are-equal", result == (word(s) == word(a.other))
+        else:
+            yield "never-equal-to-something-that-is-not-an-attrspec", neg(result)
+
+
+def hash_spec(v):
+    return mk_int(HASH_PAIR(z3.IntVal(V.atom_code("class:AttrSpec")), V._z(v.to_int() if isinstance(v, BitWord) else v)))
+
+
+@contract(DC + "AttrSpec.__hash__", property="C18", replayable=False)
+class attrspec_hash:
+    self_shape = SPEC
+    params = {}
+    result = Int
+    raises = ()
+    call_real = staticmethod(cstr_call_real)
+
+    def ensures(old, s, a, result):
+        yield "a-function-of-the-class-and-the-packed-word-only", result == hash_spec(word(s))
+
+
+@lemma("equal-attrspecs-have-equal-hashes", property="C18")
+class eq_implies_hash:
+    """Composition of the two contracts above: __eq__ answers True exactly on equal words, __hash__ is a function of
+    the word — so equal specifications hash alike."""
+    params = dict(v1=Int, v2=Int)
+
+    def requires(a):
+        return a.v1 == a.v2  # what `s1 == s2` means, by AttrSpec.__eq__'s contract
+
+    def claim(a):
+        yield "equal-hashes", hash_spec(a.v1) == hash_spec(a.v2)
+
+
+def rgb_of_side(v, kind_basic, kind_high, kind_true, number, got):
+    """`got` (three values) are the RGB components the tables give for one side of the word."""
+    m88 = flag(v, "_HIGH_88_COLOR")
+    none3 = both(*[opt_isnone(x) for x in got])
+    vals = [0 if x is None else val(x) for x in got]
+    some3 = both(*[neg(opt_isnone(x)) for x in got])
+    t88, t256 = T("_COLOR_VALUES_88", number), T("_COLOR_VALUES_256", number)
+    eq3 = lambda t: both(some3, *[x == y for x, y in zip(vals, t)])  # noqa: E731
+    # the three bytes of the number, characterised positionally (unique): 0 <= r,g,b < 256 and r*2^16 + g*2^8 + b == number
+    true_ok = both(some3, *[both(0 <= x, x < 256) for x in vals], vals[0] * 65536 + vals[1] * 256 + vals[2] == number)
+    yield "default-has-no-components", implies(neg(either(kind_basic, kind_high, kind_true)), none3)
+    yield "88-colour-mode-reads-the-88-colour-xterm-table", implies(both(either(kind_basic, kind_high), m88), eq3(t88))
+    yield "true-colours-are-their-own-components", implies(kind_true, true_ok)
+    yield "otherwise-the-256-colour-xterm-table", implies(both(either(kind_basic, kind_high), neg(m88)), eq3(t256))
+
+
+@contract(DC + "AttrSpec.get_rgb_values", property="C18", replayable=False)
+class attrspec_rgb:
+    self_shape = SPEC
+    params = {}
+    raises = ()
+    invariant = staticmethod(RI)
+    inline = GETTERS
+    setup = staticmethod(tables_setup)
+    fstring = staticmethod(cstr_fstring)
+
+    def ensures(old, s, a, result):
+        v = word(s)
+        yield "six-components", len(result) == 6
+        for label, f in rgb_of_side(v, flag(v, "_FG_BASIC_COLOR"), flag(v, "_FG_HIGH_COLOR"), flag(v, "_FG_TRUE_COLOR"), fg_number(v), result[0:3]):
+            yield "foreground-" + label, f
+        for label, f in rgb_of_side(v, flag(v, "_BG_BASIC_COLOR"), flag(v, "_BG_HIGH_COLOR"), flag(v, "_BG_TRUE_COLOR"), bg_number(v), result[3:6]):
+            yield "background-" + label, f
+        yield "word-unchanged", word(s) == word(old)
+
+
+ATTRSPEC_ERROR = real_const("AttrSpecError")
+BASIC_NAMES = tuple(real_const("_BASIC_COLORS"))
+SETTING_NAMES = tuple(real_const("_ATTRIBUTES"))
+
+
+def is_default_name(s):
+    return either(cs_eq(s, ""), cs_eq(s, "default"))
+
+
+def basic_index(s):
+    """(is a basic colour name, its index)"""
+    hit, idx = False, 0
+    for j in range(len(BASIC_NAMES) - 1, -1, -1):
+        e = cs_eq(s, BASIC_NAMES[j])
+        hit, idx = either(hit, e), ite(e, j, idx)
+    return hit, idx
+
+
+def valid_palette_form(p, s):
+    """s is one of the documented high-colour forms, within the palette: hN, #rgb, g#XX, gN (N <= 100)."""
+    n, c0 = cs_len(s), cs_at(s, 0)
+    hwf, hv = digits_at(s, 1, 10, 3)
+    d = [cs_at(s, i) for i in (1, 2, 3)]
+    xwf, _xv = digits_at(s, 2, 16, 2)
+    gwf, gv = digits_at(s, 1, 10, 3)
+    return either(both(n <= 4, c0 == H, hwf, hv < p.colours), both(n == 4, c0 == HASH, *[is_hex(x) for x in d]),
+                  both(n <= 4, n >= 2, c0 == G, cs_at(s, 1) == HASH, xwf), both(n <= 4, c0 == G, gwf, gv <= 100))
+
+
+def is_rrggbb(s):
+    return both(cs_len(s) == 7, cs_at(s, 0) == HASH, *[is_hex(cs_at(s, i)) for i in range(1, 7)])
+
+
+def colour_part_clauses(v0, s, kind_basic, kind_high, kind_true, number):
+    """How one colour description s (not a setting) is stored: kind flags and number, by the mode bits of v0."""
+    m88, mtrue = flag(v0, "_HIGH_88_COLOR"), flag(v0, "_HIGH_TRUE_COLOR")
+    default = is_default_name(s)
+    basic, bidx = basic_index(s)
+    named = either(default, basic)
+    yield "default-or-empty-stores-no-colour", implies(default, both(neg(kind_basic), neg(kind_high), neg(kind_true), number == 0))
+    yield "a-basic-name-stores-its-index-as-a-basic-colour", implies(basic, both(kind_basic, neg(kind_high), neg(kind_true), number == bidx))
+    yield "other-colours-are-high-or-true-by-the-declared-depth", implies(neg(named), both(neg(kind_basic), kind_true == mtrue, kind_high == neg(mtrue)))
+    stored = V.SOpt(z3.BoolVal(False), number)
+    for label, f in parse_spec_clauses(P88, s, stored):
+        yield "at-88-colours-" + label, implies(both(neg(named), m88), f)
+    for label, f in parse_true_clauses(s, stored):
+        yield "at-true-colour-" + label, implies(both(neg(named), neg(m88), mtrue), f)
+    six = [cs_at(s, i) for i in range(1, 7)]
+    hi = [T(P256.lookup16, digit_val(x, 16)) for x in (six[0], six[2], six[4])]
+    yield "at-256-colours-hash-rrggbb-is-the-cube-colour-nearest-to-its-high-digits", implies(both(neg(named), neg(m88), neg(mtrue), is_rrggbb(s)), number == cube_number(P256, *hi))
+    for label, f in parse_spec_clauses(P256, s, stored):
+        yield "at-256-colours-" + label, implies(both(neg(named), neg(m88), neg(mtrue), neg(is_rrggbb(s))), f)
+
+
+def rejected_part_clauses(v0, s):
+    """What may be said of a colour description that was rejected."""
+    m88, mtrue = flag(v0, "_HIGH_88_COLOR"), flag(v0, "_HIGH_TRUE_COLOR")
+    yield "default-and-basic-names-are-never-rejected", both(neg(is_default_name(s)), neg(basic_index(s)[0]))
+    yield "valid-88-colour-forms-are-never-rejected", implies(m88, both(neg(valid_palette_form(P88, s)), neg(is_rrggbb(s))))
+    yield "valid-256-colour-forms-are-never-rejected", implies(neg(m88), both(neg(valid_palette_form(P256, s)), neg(is_rrggbb(s))))
+
+
+def mode_ok(v):
+    return neg(both(flag(v, "_HIGH_88_COLOR"), flag(v, "_HIGH_TRUE_COLOR")))
+
+
+@contract(DC + "AttrSpec.__set_background", property="C18", replayable=False)
+class attrspec_set_background:
+    self_shape = SPEC
+    params = dict(background=Str())
+    raises = (ATTRSPEC_ERROR,)
+    modifies = (WORD,)
+    setup = staticmethod(tables_setup)
+    call_real = staticmethod(cstr_call_real)
+    static_checks = [_layout_matches_module, _xcheck_bitword]
+
+    def requires(s, a):
+        return mode_ok(word(s))
+
+    def ensures(old, s, a, result):
+        v0, v1 = word(old), word(s)
+        yield "only-the-background-bit-fields-change", same_outside(v1, v0, BG_OWN, (BG,))
+        fresh = neg(flag(v0, "_BG_TRUE_COLOR"))  # the one background bit the setter never clears (as in __init__: word is new)
+        kb, kh, kt = flag(v1, "_BG_BASIC_COLOR"), flag(v1, "_BG_HIGH_COLOR"), flag(v1, "_BG_TRUE_COLOR")
+        yield "the-background-side-is-well-formed", implies(fresh, side_wf(v1, kb, kh, kt, bg_number(v1)))
+        for label, f in colour_part_clauses(v0, a.background, kb, kh, kt, bg_number(v1)):
+            yield label, implies(fresh, f)
+
+    def on_raise(old, s, a, exc):
+        yield "word-unchanged-when-rejected", word(s) == word(old)
+        yield from rejected_part_clauses(word(old), a.background)
+
+
+# ---- the foreground setter: a loop over the comma-separated parts -------------------------------------------
+# str.split(",") / str.strip() are modelled abstractly: split gives m >= 1 parts, each some str without a comma;
+# strip of part j gives some str no longer than it (which characters count as blank is left open).  The stripped
+# parts are the only thing the loop looks at; they are kept as a ghost sequence for the invariant and the
+# postconditions ("part j").
+
+
+def fg_str_method(ip, st, s, name, args, kwargs):
+    if name == "split" and args == [","] and not kwargs:
+        m = st.fresh_int("nparts")
+        st.assume(m >= 1)
+        fam = st.fresh_name("part")
+        ln = z3.Function(fam + "$len", z3.IntSort(), z3.IntSort())
+        code = z3.Function(fam + "$code", z3.IntSort(), z3.IntSort(), z3.IntSort())
+        sln = z3.Function(fam + "$slen", z3.IntSort(), z3.IntSort())
+        scode = z3.Function(fam + "$scode", z3.IntSort(), z3.IntSort(), z3.IntSort())
+
+        def mk(lenf, codef, j, stripped):
+            zj = V._z(j)
+
+            def at(k):
+                e = codef(zj, V._z(k))
+                cur().assume(z3.And(e >= 0, e < MAX_CODE, e != 44))
+                return mk_int(e)
+
+            n = lenf(zj)
+            cur().assume(z3.And(n >= 0, sln(zj) <= ln(zj)))
+            r = CStr(mk_int(n), at)
+            if not stripped:
+                r.strip_result = lambda: mk(sln, scode, j, True)
+            return r
+
+        st.ghost["c18_parts"] = (m, lambda j: mk(sln, scode, j, True))
+        return Q.LRef(Q.SSeq(m, lambda j: mk(ln, code, j, False), None, None, "parts"))
+    if name == "strip" and not args and hasattr(s, "strip_result"):
+        return s.strip_result()
+    return NotImplemented
+
+
+def is_setting(s):
+    return either(*[cs_eq(s, nm) for nm in SETTING_NAMES])
+
+
+def only_fg_flag_bits(fl):
+    own = {bit_index(n) for n in FG_OWN}
+    return both(*[p == 0 for i, p in enumerate(fl.parts) if i not in own])
+
+
+def fg_kinds(v):
+    return flag(v, "_FG_BASIC_COLOR"), flag(v, "_FG_HIGH_COLOR"), flag(v, "_FG_TRUE_COLOR")
+
+
+def at_most_one_colour_part(upto, part):
+    """Among the parts below `upto`, at most one is not a setting."""
+    return forall(0, upto, lambda j: forall(0, upto, lambda k: implies(both(neg(is_setting(part(j))), neg(is_setting(part(k)))), j == k)))
+
+
+SETTING_BITS = dict(real_const("_ATTRIBUTES"))  # setting name -> its flag constant
+
+
+def no_setting_twice(upto, part):
+    """Among the parts below `upto`, none of the six settings occurs twice."""
+    return both(*[forall(0, upto, lambda j, nm=nm: forall(0, upto, lambda k: implies(both(cs_eq(part(j), nm), cs_eq(part(k), nm)), j == k))) for nm in SETTING_NAMES])
+
+
+def _fg_loop_inv(v):
+    st = cur()
+    fl = BitWord.lift(st, v.flags)
+    cn, cv = opt_parts(v.color)
+    w = word(v.self)
+    _m, part = st.ghost["c18_parts"]
+    yield "flags-holds-foreground-flag-bits-only", only_fg_flag_bits(fl)
+    yield "the-word-is-not-touched-inside-the-loop", w == word(v.at_entry.self)
+    yield "no-colour-yet-means-no-kind-flag", implies(cn, both(*[neg(k) for k in fg_kinds(fl)]))
+    yield "a-colour-fits-its-kind-and-the-declared-depth", implies(neg(cn), both(0 <= cv, cv < 2**24, side_wf(w, *fg_kinds(fl), cv)))
+    yield "no-colour-yet-means-only-settings-so-far", implies(cn, forall(0, v.i_, lambda j: is_setting(part(j))))
+    yield "one-colour-part-so-far", at_most_one_colour_part(v.i_, part)
+    yield "every-setting-seen-is-recorded-in-flags", both(*[forall(0, v.i_, lambda j, nm=nm, c=c: implies(cs_eq(part(j), nm), fl.parts[c.bit_length() - 1 - 48 + 2] != 0)) for nm, c in SETTING_BITS.items()])
+    yield "no-setting-twice-so-far", no_setting_twice(v.i_, part)
+
+
+@contract(DC + "AttrSpec.__set_foreground", property="C18", replayable=False)
+class attrspec_set_foreground:
+    self_shape = SPEC
+    params = dict(foreground=Str())
+    raises = (ATTRSPEC_ERROR,)
+    modifies = (WORD,)
+    setup = staticmethod(tables_setup)
+    call_real = staticmethod(cstr_call_real)
+    str_method = staticmethod(fg_str_method)
+    branch_timeout_ms = 400  # the path conditions carry quantifiers: an undecided feasibility check keeps the branch (sound)
+    loops = {0: Loop(invariant=_fg_loop_inv, shapes={"color": Opt(Int), "flags": WordShape()})}
+
+    def requires(s, a):
+        return mode_ok(word(s))
+
+    def ensures(old, s, a, result):
+        v0, v1 = word(old), word(s)
+        yield "only-the-foreground-bit-fields-change", same_outside(v1, v0, FG_OWN, (FG,))
+        fresh = neg(flag(v0, "_FG_TRUE_COLOR"))  # the one foreground bit the setter never clears (as in __init__: the word is new)
+        yield "the-foreground-side-is-well-formed", implies(fresh, side_wf(v1, *fg_kinds(v1), fg_number(v1)))
+        st = cur()
+        if "c18_parts" in st.ghost and not st.ghost.get("c18_callee"):
+            m, part = st.ghost["c18_parts"]
+            yield "accepted-only-with-at-most-one-colour-part", at_most_one_colour_part(m, part)
+            yield "accepted-only-when-no-setting-is-given-twice", no_setting_twice(m, part)
+
+    def ensures_callee(old, s, a, result):
+        v0, v1 = word(old), word(s)
+        yield "only-the-foreground-bit-fields-change", same_outside(v1, v0, FG_OWN, (FG,))
+        yield "the-foreground-side-is-well-formed", implies(neg(flag(v0, "_FG_TRUE_COLOR")), side_wf(v1, *fg_kinds(v1), fg_number(v1)))
+
+    def on_raise(old, s, a, exc):
+        yield "word-unchanged-when-rejected", word(s) == word(old)
+
+
+DEPTHS = (1, 16, 88, 256, 2**24)
+
+
+@contract(DC + "AttrSpec.__init__", property="C18", replayable=False)
+class attrspec_init:
+    self_shape = SPEC
+    params = dict(fg=Str(), bg=Str(), colors=Union(*[Const(d) for d in DEPTHS], Int))
+    raises = (ATTRSPEC_ERROR,)
+    modifies = (WORD,)
+    setup = staticmethod(tables_setup)
+
+    def requires(s, a):
+        # the last alternative of `colors` stands for every other int
+        return both(*[a.colors != d for d in DEPTHS]) if isinstance(a.colors, SInt) else True
+
+    def ensures(old, s, a, result):
+        v = word(s)
+        yield "only-for-one-of-the-five-depths", either(*[a.colors == d for d in DEPTHS])
+        yield "the-word-is-well-formed", wf(v)
+        yield "88-colour-mode-is-recorded-exactly-when-declared", flag(v, "_HIGH_88_COLOR") == (a.colors == 88)
+        yield "true-colour-mode-is-recorded-exactly-when-declared", flag(v, "_HIGH_TRUE_COLOR") == (a.colors == 2**24)
+        yield "needs-no-more-colours-than-declared", colors_spec(v) <= a.colors
+        kb, kh, kt = flag(v, "_BG_BASIC_COLOR"), flag(v, "_BG_HIGH_COLOR"), flag(v, "_BG_TRUE_COLOR")
+        for label, f in colour_part_clauses(v, a.bg, kb, kh, kt, bg_number(v)):
+            yield "background-" + label, f
+
+    def on_raise(old, s, a, exc):
+        yield "only-the-librarys-own-error", issubclass(exc.cls, ATTRSPEC_ERROR)
+
+
+def stored_colour_description_clauses(v, kb, kh, kt, number, result):
+    """The colour description reported for one side of a well-formed word."""
+    m88, mtrue = flag(v, "_HIGH_88_COLOR"), flag(v, "_HIGH_TRUE_COLOR")
+    r = CStr.of(result)
+    yield "no-colour-is-default", implies(neg(either(kb, kh, kt)), cs_eq(r, "default"))
+    yield "a-basic-colour-is-its-name", implies(kb, either(*[both(number == j, cs_eq(r, nm)) for j, nm in enumerate(BASIC_NAMES)]))
+    stored = V.SOpt(z3.BoolVal(False), number)
+    for label, f in desc_spec_clauses(P88, number, r):
+        yield "at-88-colours-" + label, implies(both(kh, m88), f)
+    yield "at-88-colours-the-description-parses-back-to-the-stored-number", implies(both(kh, m88), both(*[f for _l, f in parse_spec_clauses(P88, r, stored)]))
+    for label, f in desc_spec_clauses(P256, number, r):
+        yield "at-256-colours-" + label, implies(both(kh, neg(m88)), f)
+    yield "at-256-colours-the-description-parses-back-to-the-stored-number", implies(both(kh, neg(m88)), both(*[f for _l, f in parse_spec_clauses(P256, r, stored)]))
+    yield "a-true-colour-is-hash-and-six-hex-digits", implies(kt, cs_eq(r, hex6(number), 7))
+    yield "the-true-colour-description-parses-back-to-the-stored-number", implies(kt, both(*[f for _l, f in parse_true_clauses(r, stored)]))
+
+
+@contract(DC + "AttrSpec.background", property="C18", replayable=False)
+class attrspec_background:
+    self_shape = SPEC
+    params = {}
+    result = Str(9)
+    raises = ()
+    invariant = staticmethod(RI)
+    inline = GETTERS
+    setup = staticmethod(tables_setup)
+
+    def ensures(old, s, a, result):
+        v = word(s)
+        yield from stored_colour_description_clauses(v, flag(v, "_BG_BASIC_COLOR"), flag(v, "_BG_HIGH_COLOR"), flag(v, "_BG_TRUE_COLOR"), bg_number(v), result)
+        yield "word-unchanged", word(s) == word(old)
+
+
+@contract(DC + "AttrSpec._foreground_color", property="C18", replayable=False)
+class attrspec_foreground_color:
+    self_shape = SPEC
+    params = {}
+    result = Str(13)
+    raises = ()
+    invariant = staticmethod(RI)
+    inline = GETTERS
+    setup = staticmethod(tables_setup)
+
+    def ensures(old, s, a, result):
+        v = word(s)
+        yield from stored_colour_description_clauses(v, *fg_kinds(v), fg_number(v), result)
+        yield "word-unchanged", word(s) == word(old)
+
+
+def _str_times_bool(ip, st, op, a, b):
+    """`",bold" * self.bold`: a str constant times a bool is the constant or "" (one fork)."""
+    import ast as _ast
+
+    if isinstance(op, _ast.Mult) and isinstance(a, str) and isinstance(b, SBool):
+        return a if st.branch(b) else ""
+    return NotImplemented
+
+
+SETTING_ORDER = (("bold", "_BOLD"), ("italics", "_ITALICS"), ("standout", "_STANDOUT"), ("blink", "_BLINK"), ("underline", "_UNDERLINE"), ("strikethrough", "_STRIKETHROUGH"))
+
+
+@contract(DC + "AttrSpec.foreground", property="C18", replayable=False)
+class attrspec_foreground:
+    self_shape = SPEC
+    params = {}
+    result = Str(64)
+    raises = ()
+    invariant = staticmethod(RI)
+    inline = GETTERS
+    setup = staticmethod(tables_setup)
+    binop = staticmethod(_str_times_bool)
+
+    def ensures(old, s, a, result):
+        v = word(s)
+        colour = attrspec_foreground_color.spec_value(s)
+        suffix = "".join("," + nm for nm, const in SETTING_ORDER if bool(flag(v, const)))  # decided on each path
+        want = cs_concat(CStr.of(colour), CStr.of(suffix))
+        yield "the-colour-description-then-each-setting-present-once-in-the-fixed-order", cs_eq(CStr.of(result), want, 13 + len(suffix))
+        yield "word-unchanged", word(s) == word(old)
